@@ -122,7 +122,7 @@ func (c *checker) writeEvidence() {
 		"map_order_decisions":                 mapDec,
 		"max_steps_one_request":               maxTicks,
 		"step_budget_per_request":             DefaultFuel,
-		"step_budget_note":                    "multiplied by min(400, (known alternatives / 14)^4) for requests with more than 14 alternatives: a liveness bound, kept far above what a terminating evaluation needs",
+		"step_budget_note":                    "multiplied by min(100, (known alternatives / 14)^4) for requests with more than 14 alternatives: a liveness bound, kept far above what a terminating evaluation needs",
 		"fault_kinds_fired":                   faults,
 		"clock_and_global_rand_calls":         probes,
 		"response_classes":                    classes,
